@@ -229,7 +229,7 @@ def deep_fields(body, op, depth=0, seen=None):
     return out
 
 
-@rule("C12.3", ["C12", "C19", "C18", "C08"], ["E4", "E7"], "the configuration the user gave is the configuration the code reads",
+@rule("C12.3", ["C12", "C19", "C18", "C08", "C17", "C06", "C03", "C14", "C15", "C04"], ["E4", "E7"], "the configuration the user gave is the configuration the code reads",
       "SocketOpts::validate builds ValidatedSocketOpts field by field from the option of the same meaning: nagle = !disable_nagle, wait_for_last_ack = !dont_wait_for_lastack, "
       "max_active_streams <- max_live_vsocks, max_segment_retransmissions <- max_retransmissions, vsock_tx_bufsize_bytes_{initial,max} <- the same-named options, remote_inactivity_timeout, "
       "mtu_probe_max_retransmissions, congestion, link_mtu <- link_mtu, vsock_rx_bufsize <- vsock_rx_bufsize_bytes; UtpSocket::opts hands out UtpSocket.opts.")
